@@ -30,20 +30,21 @@ pub struct BuiltBlock {
 }
 
 pub fn ser_tx_stripped(tx: &TxDesc) -> Vec<u8> {
+    let w = tx.cs_width;
     let mut v = Vec::new();
     v.extend_from_slice(&tx.version.to_le_bytes());
-    v.extend(compact_size(tx.inputs.len() as u64));
+    v.extend(compact_size_w(tx.inputs.len() as u64, w));
     for i in &tx.inputs {
         v.extend_from_slice(&i.prev_txid.0);
         v.extend_from_slice(&i.prev_index.to_le_bytes());
-        v.extend(compact_size(i.script_sig.0.len() as u64));
+        v.extend(compact_size_w(i.script_sig.0.len() as u64, w));
         v.extend_from_slice(&i.script_sig.0);
         v.extend_from_slice(&i.sequence.to_le_bytes());
     }
-    v.extend(compact_size(tx.outputs.len() as u64));
+    v.extend(compact_size_w(tx.outputs.len() as u64, w));
     for o in &tx.outputs {
         v.extend_from_slice(&o.value.to_le_bytes());
-        v.extend(compact_size(o.script.0.len() as u64));
+        v.extend(compact_size_w(o.script.0.len() as u64, w));
         v.extend_from_slice(&o.script.0);
     }
     v.extend_from_slice(&tx.locktime.to_le_bytes());
@@ -61,18 +62,19 @@ pub fn ser_tx_full(tx: &TxDesc) -> (Vec<u8>, Vec<(usize, usize)>) {
     unc.push((v.len(), v.len() + 2));
     v.push(0x00);
     v.push(0x01);
-    v.extend(compact_size(tx.inputs.len() as u64));
+    let w = tx.cs_width;
+    v.extend(compact_size_w(tx.inputs.len() as u64, w));
     for i in &tx.inputs {
         v.extend_from_slice(&i.prev_txid.0);
         v.extend_from_slice(&i.prev_index.to_le_bytes());
-        v.extend(compact_size(i.script_sig.0.len() as u64));
+        v.extend(compact_size_w(i.script_sig.0.len() as u64, w));
         v.extend_from_slice(&i.script_sig.0);
         v.extend_from_slice(&i.sequence.to_le_bytes());
     }
-    v.extend(compact_size(tx.outputs.len() as u64));
+    v.extend(compact_size_w(tx.outputs.len() as u64, w));
     for o in &tx.outputs {
         v.extend_from_slice(&o.value.to_le_bytes());
-        v.extend(compact_size(o.script.0.len() as u64));
+        v.extend(compact_size_w(o.script.0.len() as u64, w));
         v.extend_from_slice(&o.script.0);
     }
     let wstart = v.len();
